@@ -14,7 +14,9 @@ Streams
              patch (own unified-diff parser/applier on get_diff() text), names (files named by the
              diff = get_changed_files/get_renames), inspect (nothing on disk changes before
              apply), apply (disk afterwards = announced contents and names, nothing else),
-             bytes (text outside the rewritten nodes preserved, by absolute offsets),
+             bytes (text outside the rewritten nodes preserved, by absolute offsets; the text in front of
+             each rewritten node - its parso prefix: line break, comment / blank lines, indentation - must
+             survive inside the replacement, only whole new lines may be inserted into it),
              exceptions (only RefactoringError / ValueError)
 """
 import difflib
@@ -26,7 +28,7 @@ import traceback
 
 import common
 from common import short
-from gen import refactor_gen
+from gen import refactor_gen, refactor_shapes
 
 MODELS = ['Diff', 'RefactorFS', 'Tree']
 MANIFEST = dict(
@@ -42,7 +44,9 @@ MANIFEST = dict(
          'statement = F3) and none at all once the range check exists. Tie: translator constants + '
          'correspondence on real refactorings (rename, inline, extract_variable, extract_function) over '
          'generated projects with LF/CRLF/CR endings, with/without final newline, unicode identifiers, '
-         'module renames; direct oracle with an independent patch applier and directory snapshots.',
+         'module renames; direct oracle with an independent patch applier, directory snapshots and a byte-level '
+         'check that the text between and in front of the rewritten nodes (line breaks, comment and blank lines, '
+         'indentation, LF/CRLF/CR) is preserved with nothing but whole inserted lines.',
     note='Modelled not verified: difflib (parameter: opcode list, Valid decided per run), parso tree construction, '
          'pathlib ordering, os.rename/open succeeding, text<->bytes encoding (utf-8). The node maps themselves '
          '(which nodes a refactoring rewrites) are C05/C06 business.',
@@ -240,7 +244,7 @@ def line_start_offset(text, line):
 
 def prefix_groups(root, node_map, old):
     """maximal rewritten nodes, merged when they touch: [(start incl. prefix, start of the first token,
-    end, replacement text)]"""
+    end, replacement text, [(start, end) of the prefixes of the 2nd.. merged nodes])]"""
     spans = node_spans(root)
     mapped = sorted(((spans[id(nd)], nd, s) for nd, s in node_map.items()), key=lambda x: (x[0][0], -x[0][1]))
     groups, pos = [], 0
@@ -250,9 +254,9 @@ def prefix_groups(root, node_map, old):
         vstart = s + len(first_leaf_of(nd).prefix)
         if groups and groups[-1][2] == s:
             g = groups[-1]
-            groups[-1] = (g[0], g[1], e, g[3] + text)
+            groups[-1] = (g[0], g[1], e, g[3] + text, g[4] + [(s, vstart)])
         else:
-            groups.append((s, vstart, e, text))
+            groups.append((s, vstart, e, text, []))
         pos = e
     return groups
 
@@ -574,7 +578,22 @@ def run_case(ctx, n, files, main_rel, req, do_apply, reqs, pending, verbose=Fals
                     and isinstance(req.get('line'), int):
                 sel_off = line_start_offset(it['old'], req['line'])
             multi = cont = False
-            for gi, (gs, gv, ge, text) in enumerate(prefix_groups(cf._module_node, cf._node_to_str_map, it['old'])):
+            sel_end = None
+            if sel_off is not None and isinstance(req.get('until_line'), int):
+                sel_end = line_start_offset(it['old'], req['until_line'] + 1)
+            for gi, (gs, gv, ge, text, inner) in enumerate(
+                    prefix_groups(cf._module_node, cf._node_to_str_map, it['old'])):
+                # comments in front of the 2nd.. node of a run of rewritten nodes (e.g. the comment after a
+                # statement that `inline` removes) are outside the nodes too; inside the selected lines of an
+                # extract request they are selected text
+                for (ps, pe) in inner:
+                    if sel_off is not None and ps >= sel_off and (sel_end is None or pe <= sel_end):
+                        continue
+                    for c in re.findall(r'#[^\r\n]*', it['old'][ps:pe]):
+                        if c not in it['new']:
+                            ctx.fail('oracle-bytes', 'a comment between rewritten nodes is lost',
+                                     dict(fcase, shape=refactor_shapes.c07_shape_of(it['old'], req), prefix=c),
+                                     expected={'comment': c}, observed={'new_code': it['new']}, how=HOW)
                 pfx = it['old'][gs:gv]
                 if sel_off is not None and gs <= sel_off < gv:
                     pfx = it['old'][gs:sel_off]
@@ -585,7 +604,7 @@ def run_case(ctx, n, files, main_rel, req, do_apply, reqs, pending, verbose=Fals
                 lost = prefix_preserved(pfx, text)
                 if lost is not None:
                     ctx.fail('oracle-bytes', 'text in front of a rewritten node is not preserved: ' + lost,
-                             dict(fcase, prefix=pfx), expected={'text_in_front_of_the_node': pfx}, observed={'replacement': text, 'new_code': it['new']},
+                             dict(fcase, shape=refactor_shapes.c07_shape_of(it['old'], req), prefix=pfx), expected={'text_in_front_of_the_node': pfx}, observed={'replacement': text, 'new_code': it['new']},
                              how=HOW)
             ctx.count('oracle-prefix', key, nontrivial=multi,
                       bucket='%s/%s/%s' % (req['kind'], 'continuation-line-node' if cont else
